@@ -263,4 +263,36 @@ func runDefects(tier string, seed int64, langs []int) {
 	}
 }
 
-func replayExtra(op string, e Event) { fatal("replay: cannot re-execute", op) }
+var listSourceReplayed bool
+
+// replayExtra re-executes the events that are not plain calls with logged arguments.
+func replayExtra(op string, e Event) {
+	rep := func(unit string, n int) string {
+		if n <= 0 {
+			return ""
+		}
+		return strings.Repeat(unit, n/len(unit))
+	}
+	desc, _ := e["desc"].(string)
+	switch op {
+	case "CheckHuge":
+		unit := map[string]string{"10^6 spaces": " ", "ascii": "a", "non-NFKD": "\u00e9", "U+3000": "\u3000", "invalid bytes": "\xff", "many words": "abandon "}[desc]
+		if unit != "" {
+			recCheckHuge(rep(unit, int(num(e["in_len"]))), desc, num(e["lang"]))
+		}
+	case "ToSeedHuge":
+		switch desc {
+		case "ascii mnemonic":
+			recToSeedHuge(rep("a", int(num(e["m_len"]))), "", desc)
+		case "non-NFKD passphrase":
+			recToSeedHuge("", rep("\u00e9", int(num(e["p_len"]))), desc)
+		case "invalid bytes + marks":
+			recToSeedHuge(rep("\xff", int(num(e["m_len"]))), rep("\u0301", int(num(e["p_len"]))), desc)
+		}
+	case "ListSource", "ListSourceUnobservable":
+		if !listSourceReplayed {
+			listSourceReplayed = true
+			runListSource()
+		}
+	}
+}
